@@ -988,6 +988,41 @@ def run(seed: int = 16, scale: float = 1.0, driver: str = DEFAULT_DRIVER) -> dic
         if len(samples) < 5 and ci % 7 == 3:
             samples.append({"decls": c.decls, "ty": ty, "json": jsons[0]})
 
+    # 2b. cycles of SEVERAL classes, decoded / encoded from changing roots in one process: whatever the converter remembers per class
+    #     between calls (hook registration walks, memo tables) must give the same answers as a fresh walk from every root
+    for ci in range(max(3, int(round(24 * scale)))):
+        k = rng.choice([2, 2, 3])
+        names = ["Author", "Book", "Shelf"][:k]
+        ren_all = rng.random() < 0.8
+        decls = []
+        for idx, n in enumerate(names):
+            nxt, prv = names[(idx + 1) % k], names[(idx - 1) % k]
+            fields = [{"n": "display_name", "t": "str", "d": "req"}, {"n": "class_", "t": {"opt": "str"}, "d": "none"},
+                      {"n": "next_items", "t": {"list": {"dc": nxt}}, "d": "list"}, {"n": "owner", "t": {"opt": {"dc": prv}}, "d": "none"}]
+            rename = ren_all or idx == 0
+            load = [["displayName", "display_name"], ["class", "class_"], ["nextItems", "next_items"]] if rename else None
+            dump = [[b, a] for a, b in load] if rename else None
+            decls.append([n, {"fields": fields, "load": load, "dump": dump}])
+        c, _, ren = build_from_decls(f"{seed}cy{ci}", decls, None)
+
+        def doc(idx, depth):
+            n = names[idx]
+            renamed = ren_all or idx == 0
+            d = {("displayName" if renamed else "display_name"): f"{n}-{depth}"}
+            if rng.random() < 0.6:
+                d["class" if renamed else "class_"] = "c"
+            if depth > 0:
+                d["nextItems" if renamed else "next_items"] = [doc((idx + 1) % k, depth - 1) for _ in range(rng.randint(0, 2))]
+                if rng.random() < 0.5:
+                    d["owner"] = doc((idx - 1) % k, depth - 1)
+            return d
+        roots = [rng.randrange(k) for _ in range(rng.randint(2, 4))]
+        if len(set(roots)) == 1:
+            roots.append((roots[0] + 1) % k)
+        for step, ri in enumerate(roots):
+            exercise(c, {"dc": ren[names[ri]]}, [doc(ri, rng.randint(1, 3)) for _ in range(rng.randint(1, 2))], f"cycle{ci}.{step}", [n for n, _ in c.decls])
+        bump("class cycles with changing roots")
+
     # 3. the serializer
     _serializer_cases(rng, scale, cc, Ser, add, bump)
 
@@ -1651,6 +1686,30 @@ def _evaluate(case, c, ty, ren, cc, Ser):
                 return {"class": "same-name-classes-confused" if which != "first" or r["class"] != "roundtrip-decode-fails" else r["class"],
                         "observed": f"[{which}] {r['class']}: {str(r['observed'])[:260]}", "expected": r["expected"]}
         return None
+    if prop == "changing_roots":
+        # ONE family of classes (a cycle of several dataclasses), decoded and encoded from changing roots in one process; a step
+        # {"root", "json", "via"}: via = "roundtrip" (decode then encode) or "encode_built" (encode an instance that was decoded
+        # by an EARLIER step of another root - so the first encode walk of this process starts at that root)
+        kept = {}
+        for k, st in enumerate(case["steps"]):
+            T = c.pytype({"dc": ren[st["root"]]})
+            try:
+                if st["via"] == "encode_built" and st.get("of") in kept:
+                    v = kept[st["of"]]
+                    want = case["steps"][st["of"]]["json"]
+                else:
+                    v = cc.structure_from_dict(st["json"], T)
+                    want = st["json"]
+                    kept[k] = v
+                    if st["via"] == "decode_only":
+                        continue
+                plain = _plain_json(cc.unstructure_to_dict(v))
+            except Exception as e:                               # noqa: BLE001
+                return {"class": "changing-roots-roundtrip-fails", "observed": f"step {k} (root {st['root']}, {st['via']}): {type(e).__name__}: {str(e)[:260]}",
+                        "expected": "every conforming document of every class of the family round-trips, whatever was decoded or encoded before"}
+            if not py_tolerated(want, plain):
+                return {"class": "changing-roots-roundtrip-lossy", "observed": {"step": k, "root": st["root"], "via": st["via"], "encoded": plain}, "expected": want}
+        return None
     if prop in ("decode_encode", "unsupported_leaf"):
         T = c.pytype(ty)
         j = case["json"]
@@ -1862,6 +1921,38 @@ def oracle(seed: int = 16, scale: float = 1.0) -> dict:
             continue
         for _ in range(3):
             cases.append({"prop": "decode_encode", "decls": c.decls, "ty": ty, "json": c.gen_conf(ty)})
+    # 1b. cycles of several classes, changing roots, decode-only steps followed by encodes rooted elsewhere
+    for ci in range(max(3, int(round(60 * scale)))):
+        k = rng.choice([2, 2, 3])
+        names = ["Author", "Book", "Shelf"][:k]
+        ren_all = rng.random() < 0.7
+        decls = []
+        for idx, n in enumerate(names):
+            nxt, prv = names[(idx + 1) % k], names[(idx - 1) % k]
+            rename = ren_all or idx == 0
+            load = [["displayName", "display_name"], ["class", "class_"], ["nextItems", "next_items"]] if rename else None
+            decls.append([n, {"fields": [{"n": "display_name", "t": "str", "d": "req"}, {"n": "class_", "t": {"opt": "str"}, "d": "none"},
+                                         {"n": "next_items", "t": {"list": {"dc": nxt}}, "d": "list"}, {"n": "owner", "t": {"opt": {"dc": prv}}, "d": "none"}],
+                              "load": load, "dump": [[b, a] for a, b in load] if rename else None}])
+
+        def doc(idx, depth, force_nested=False):
+            renamed = ren_all or idx == 0
+            d = {("displayName" if renamed else "display_name"): f"{names[idx]}-{depth}", ("class" if renamed else "class_"): "c"}
+            if depth > 0:
+                d["nextItems" if renamed else "next_items"] = [doc((idx + 1) % k, depth - 1) for _ in range(rng.randint(1 if force_nested else 0, 2))]
+                d["owner"] = doc((idx - 1) % k, depth - 1)
+            return d
+        steps = []
+        first = rng.randrange(k)
+        steps.append({"root": names[first], "json": doc(first, 2, True), "via": rng.choice(["decode_only", "roundtrip"])})
+        other = (first + rng.randint(1, k - 1)) % k
+        steps.append({"root": names[other], "json": doc(other, 2, True), "via": "decode_only"})
+        steps.append({"root": names[other], "json": None, "via": "encode_built", "of": 1})
+        steps.append({"root": names[first], "json": None, "via": "encode_built", "of": 0})
+        for _ in range(rng.randint(0, 2)):
+            ri = rng.randrange(k)
+            steps.append({"root": names[ri], "json": doc(ri, rng.randint(1, 2)), "via": "roundtrip"})
+        cases.append({"prop": "changing_roots", "decls": decls, "ty": None, "steps": steps})
     # 2. the same with uuid / time leaves somewhere (the inputs that used to trigger F10)
     for ci in range(max(2, int(round(40 * scale)))):
         leaf = rng.choice(BAD_LEAVES)
